@@ -11,6 +11,7 @@ mod seams;
 mod threads;
 mod worker;
 
+use std::alloc::{GlobalAlloc, Layout, System};
 use std::collections::{BTreeMap, HashMap, HashSet};
 use std::io::{BufRead, BufReader};
 use std::process::{Command, Stdio};
@@ -20,6 +21,32 @@ use serde::{Deserialize, Serialize};
 use check::{RefTable, Violation};
 use plan::Plan;
 use worker::{ExecReport, FaultCounts, HarvestReport, Tier, WorkerCfg};
+
+/// The system allocator with one addition: every allocation is a potential scheduling point
+/// of the simulator (threads.rs `alloc_point`; a no-op unless a plan turned it on for the
+/// library code of a running call).
+struct SimAlloc;
+
+unsafe impl GlobalAlloc for SimAlloc {
+    unsafe fn alloc(&self, l: Layout) -> *mut u8 {
+        threads::alloc_point();
+        System.alloc(l)
+    }
+    unsafe fn alloc_zeroed(&self, l: Layout) -> *mut u8 {
+        threads::alloc_point();
+        System.alloc_zeroed(l)
+    }
+    unsafe fn dealloc(&self, p: *mut u8, l: Layout) {
+        System.dealloc(p, l)
+    }
+    unsafe fn realloc(&self, p: *mut u8, l: Layout, n: usize) -> *mut u8 {
+        threads::alloc_point();
+        System.realloc(p, l, n)
+    }
+}
+
+#[global_allocator]
+static GLOBAL: SimAlloc = SimAlloc;
 
 const DEFAULT_SEED: u64 = 20260924;
 
@@ -236,6 +263,7 @@ struct Agg {
     refs_computed: u64,
     refs_crashed: u64,
     degraded: u64,
+    digest_mismatches: u64,
     engines: BTreeMap<String, u64>,
     programs: HashSet<u64>,
 }
@@ -268,6 +296,7 @@ impl Agg {
             refs_computed: 0,
             refs_crashed: 0,
             degraded: 0,
+            digest_mismatches: 0,
             engines: BTreeMap::new(),
             programs: HashSet::new(),
         }
@@ -282,6 +311,9 @@ impl Agg {
         self.refs_crashed += r.refs_crashed;
         if r.degraded {
             self.degraded += 1;
+        }
+        if r.digest_mismatch {
+            self.digest_mismatches += 1;
         }
         if r.stratum == "C" {
             let e = if r.degraded { "sequential (degraded)".to_string() } else { r.engine.clone() };
@@ -343,6 +375,7 @@ impl Agg {
             ("once_inits", c.once_inits),
             ("log_records", c.log_records),
             ("log_yields", c.log_yields),
+            ("alloc_yields", c.alloc_yields),
         ] {
             Self::bump(&mut self.counters, k, v);
         }
@@ -580,6 +613,12 @@ fn cmd_run(args: &[String]) -> i32 {
             agg.per_stratum.get("C").copied().unwrap_or(0)
         );
     }
+    if agg.digest_mismatches > 0 {
+        println!(
+            "WARNING {} of {} re-executed executions produced the same outputs but a different event order: part of the process runs outside the simulator's control (does the library start threads of its own?). Outputs are still compared; interleavings inside that part are the operating system's.",
+            agg.digest_mismatches, agg.reruns
+        );
+    }
     let mut harness_errors = 0usize;
     if !agg.herrs.is_empty() {
         agg.herrs.sort_by(|a, b| (a.0.clone(), a.1).cmp(&(b.0.clone(), b.1)));
@@ -661,6 +700,19 @@ fn cmd_run(args: &[String]) -> i32 {
                 final_path = Some(raw_path.clone());
             }
         }
+        if final_path.is_none() {
+            // Not reproducible at once. If the same plan, replayed many times, fails some of
+            // the time, the code's output varies although every seam is fixed: that is a
+            // violation in its own right (the same sources and options, different bytes).
+            let mut rf2 = rf.clone();
+            rf2.kind = "unseamed_nondeterminism".into();
+            rf2.notes.push("the recorded violation did not replay at the first attempt; replay repeats the plan up to 50 times".into());
+            std::fs::write(&raw_path, serde_json::to_string_pretty(&rf2).unwrap()).expect("write replay");
+            let out = Command::new(&exe).arg("replay").arg(&raw_path).output();
+            if matches!(&out, Ok(o) if o.status.code() == Some(1)) {
+                final_path = Some(raw_path.clone());
+            }
+        }
         match final_path {
             Some(p) => {
                 let rf2: Option<ReplayFile> = std::fs::read_to_string(&p).ok().and_then(|t| serde_json::from_str(&t).ok());
@@ -729,6 +781,7 @@ fn cmd_run(args: &[String]) -> i32 {
             "panicking_inputs_harvested": harvested_total,
             "determinism_reruns": agg.reruns,
             "determinism_reruns_identical": agg.reruns_same,
+            "determinism_reruns_same_outputs_other_event_order": agg.digest_mismatches,
             "violation_clusters": clusters.iter().map(|(s, m)| serde_json::json!({"signature": s, "executions": m.len()})).collect::<Vec<_>>(),
             "known_findings_hit": known_hits,
             "components_real": ["prqlc", "prqlc-parser", "chumsky", "sqlparser", "sqlformat", "ariadne", "regex", "serde_json", "csv", "chrono", "std RwLock/OnceLock (uncontended, under shadow locks)", "prqlc::debug::MessageLogger (during debug sessions)"],
